@@ -9,10 +9,9 @@ package sync
 
 //@ pure chainSpacing(bt) = forall h uint64 :: chainAt(h).Height() == h && chainAt(h+1).Time() >= chainAt(h).Time() && chainAt(h+1).Time() - chainAt(h).Time() <= bt
 
-// the same spacing in closed form: two chain headers n heights apart are at most n block times apart
-// (equivalent to chainSpacing by induction on the distance; the induction is not machine-checked, the
-// near-tail retention clause below takes the closed form as its hypothesis)
-//@ pure chainSpacingSum(bt) = forall a uint64, h uint64 @ chainAt(a), chainAt(h) :: a <= h ==> chainAt(h).Time() - chainAt(a).Time() <= (h - a) * bt
+// chain times never decrease (Verify rejects a header older than its predecessor: ErrUnorderedTime), in
+// pairwise form (equivalent to the adjacent form by induction on the distance; not machine-checked)
+//@ pure chainMonotone() = forall a uint64, h uint64 @ chainAt(a), chainAt(h) :: a <= h ==> chainAt(a).Time() <= chainAt(h).Time()
 
 //@ func (*Parameters).Validate(p)
 //@   props C16
@@ -41,11 +40,14 @@ package sync
 //@   requires storeHeightBound <= head.Height()
 //@   modifies ghost:storeLow
 //@   ensures [C16] inchain: result1 == nil ==> oldTail.Height() <= result0 && result0 <= head.Height()
-//@   ensures [C16] retention-far: result1 == nil && chainSpacing(s.Params.blockTime) && oldTail == chainAt(oldTail.Height()) && head == chainAt(head.Height()) && head.Time() - s.Params.PruningWindow - oldTail.Time() >= s.Params.PruningWindow ==> forall h uint64 :: oldTail.Height() <= h && h < result0 ==> chainAt(h).Time() < head.Time() - s.Params.PruningWindow -- old tail at least one window behind the wanted one: estimated back from the head (finding F3)
-//@   ensures [C16] retention-near: result1 == nil && chainSpacingSum(s.Params.blockTime) && oldTail == chainAt(oldTail.Height()) && head.Time() - s.Params.PruningWindow - oldTail.Time() < s.Params.PruningWindow ==> forall h uint64 @ chainAt(h) :: oldTail.Height() <= h && h < result0 ==> chainAt(h).Time() < head.Time() - s.Params.PruningWindow -- old tail less than one window behind the wanted one: estimated forward from the old tail, which never overshoots, then scanned up header by header
+//@   ensures [C16] retention: result1 == nil && chainMonotone() && oldTail == chainAt(oldTail.Height()) && head.Height() <= old(storeLow) ==> forall h uint64 @ chainAt(h) :: oldTail.Height() <= h && h < result0 ==> chainAt(h).Time() < head.Time() - s.Params.PruningWindow -- every header below the new tail is older than the window, whatever the block spacing: the estimate is walked back until the header below it is out of the window, then up header by header (hypotheses: chain times never decrease, which Verify enforces; the store has reached the head the window is measured from)
 //@ loop 0:
 //@   invariant range: oldTail.Height() <= newTailHeight && newTailHeight <= head.Height()
-//@   invariant [C16] below-window: chainSpacingSum(s.Params.blockTime) && oldTail == chainAt(oldTail.Height()) && head.Time() - s.Params.PruningWindow - oldTail.Time() < s.Params.PruningWindow ==> forall h uint64 @ chainAt(h) :: oldTail.Height() <= h && h < newTailHeight ==> chainAt(h).Time() < head.Time() - s.Params.PruningWindow
+//@   invariant low: storeLow >= old(storeLow)
+//@   decreases newTailHeight
+//@ loop 1:
+//@   invariant range: oldTail.Height() <= newTailHeight && newTailHeight <= head.Height()
+//@   invariant [C16] below-window: chainMonotone() && oldTail == chainAt(oldTail.Height()) && head.Height() <= old(storeLow) ==> forall h uint64 @ chainAt(h) :: oldTail.Height() <= h && h < newTailHeight ==> chainAt(h).Time() < head.Time() - s.Params.PruningWindow
 //@   decreases head.Height() - newTailHeight
 
 //@ func (*Syncer).tailHeight(s, ctx, oldTail, head)
